@@ -44,6 +44,14 @@ def _strategy(draw):
         gen.rename_nodes(draw, spec)
         spec["adversarial_names"] = True
     spec["split"] = draw(st.sampled_from([None, None, None, "6h", "12h", "d"]))
+    # coarse assets with their own discounting, and now and then a second asset with the same frequency and window but
+    # another wacc (no reference model here, so discounted coarse variables need no convention)
+    coarse = [a for a in spec["assets"] if a.get("freq")]
+    for a in coarse:
+        a["wacc"] = draw(st.sampled_from([0.0, 0.05, 0.4]))
+    if coarse and draw(st.booleans()):
+        twin = dict(coarse[0], name="tw", wacc=draw(st.sampled_from([0.0, 0.1, 0.4])))
+        spec["assets"].insert(draw(st.integers(0, len(spec["assets"]))), twin)
     return spec
 
 
@@ -193,7 +201,7 @@ def check(spec):
     row = 0
     special = False
     for a, fa in zip(spec["assets"], fresh):
-        so = eao_call(fa.setup_optim_problem, pr2, grid2)
+        so = eao_call(fa.setup_optim_problem, pr2, build.build_grid(spec["grid"]))   # its own grid object: nothing shared
         if is_err(so):
             return out.drop("standalone_setup_error:" + so.kind)
         if not structural(out, so, T, "stand-alone " + a["name"]):
